@@ -196,7 +196,17 @@ pub fn generate_convert(name: &str, count: usize, rng: &mut Rng, out: &mut dyn W
     match name {
         "cvrand" => {
             for i in 0..count {
-                let b = rng.bytes(40);
+                let mut b = rng.bytes(40);
+                // special shapes now and then: IPv4-mapped, unspecified, loopback, all-ones
+                for off in [0usize, 16] {
+                    match rng.below(8) {
+                        0 => { for k in 0..10 { b[off + k] = 0; } b[off + 10] = 0xff; b[off + 11] = 0xff; }
+                        1 => { for k in 0..16 { b[off + k] = 0; } }
+                        2 => { for k in 0..15 { b[off + k] = 0; } b[off + 15] = 1; }
+                        3 => { for k in 0..16 { b[off + k] = 0xff; } }
+                        _ => {}
+                    }
+                }
                 let (sp, dp) = (rng.next() as u16, rng.next() as u16);
                 let args4 = json!({"sa": flat(&b[0..4]), "da": flat(&b[4..8]), "sp": sp, "dp": dp});
                 let args6 = json!({"sa": flat(&b[0..16]), "da": flat(&b[16..32]), "sp": sp, "dp": dp});
